@@ -326,6 +326,8 @@ class SourceFile:
             pat = r'\btype\s+' + re.escape(name) + r'\b'
         elif kind == 'static':
             pat = r'\bstatic\s+' + re.escape(name) + r'\s*:'
+        elif kind == 'macro':
+            pat = r'\bmacro_rules!\s+' + re.escape(name) + r'\b'
         else:
             raise AnchorLost(f'unknown item kind {kind}')
         ms = list(sc.finditer_code(pat))
@@ -338,6 +340,10 @@ class SourceFile:
         if not qm:
             raise AnchorLost(f'{self.rel}:{self.line_of(m.start())}: unexpected text before `{kind}`: {prefix!r}')
         start = ls + len(qm.group(1))
+        if kind == 'macro':
+            ob = sc.next_code_char('{(', m.end())
+            end = sc.match[ob] + 1
+            return dict(start=start, end=end, line=self.line_of(m.start()))
         if kind in ('const', 'type', 'static'):
             e = m.end()
             # end at first `;` at same brace depth
@@ -395,7 +401,7 @@ class Normaliser:
         sc = Scan(s)
         out = []
         i = 0
-        pat = re.compile(r'#\[cfg\(feature\s*=\s*"statistics"\)\]\s*')
+        pat = re.compile(r'#\[cfg\(feature\s*=\s*"(?:statistics|introspection)"\)\]\s*')
         while True:
             m = None
             for mm in pat.finditer(s, i):
@@ -410,16 +416,18 @@ class Normaliser:
             if s[j] == '{':
                 j = sc.match[j] + 1
             else:
-                # statement up to `;` at same depth
-                d0 = sc.depth[j]
+                # statement / struct field: up to the first `;` or `,` outside any bracket
                 k = j
-                while True:
-                    k = sc.next_code_char(';', k)
-                    if k < 0:
-                        raise AnchorLost('cfg(statistics) statement without terminator')
-                    if sc.depth[k] == d0:
-                        break
+                while k < len(s):
+                    if sc.code[k]:
+                        ch = s[k]
+                        if ch in '([{' and k in sc.match:
+                            k = sc.match[k]
+                        elif ch in ';,':
+                            break
                     k += 1
+                if k >= len(s):
+                    raise AnchorLost('cfg(feature) statement without terminator')
                 j = k + 1
             self.counts['N4_cfg_statistics_or_allow_dropped'] += 1
             i = j
@@ -462,6 +470,7 @@ def expand(template_path, repo):
             sf = src(rel)
             sp = sf.find_item(kind, name)
             txt = sf.text[sp['start']:sp['end']]
+            txt = norm.body(txt)
             txt = norm.vis(txt)
             txt = norm.strip_attrs_docs(txt)
             pre = []
@@ -475,6 +484,39 @@ def expand(template_path, repo):
                               out_end=l0 + block.count('\n')))
             i += 1
             continue
+        if st.startswith('//@include '):
+            # //@include <path relative to units/>  : hand-written spec text shared between units (no repo text)
+            ipath = os.path.join(os.path.dirname(os.path.dirname(os.path.abspath(template_path))), st.split()[1])
+            if not os.path.exists(ipath):
+                raise AnchorLost(f'include: {ipath} not found')
+            lines[i:i + 1] = open(ipath, encoding='utf-8').read().split('\n')
+            continue
+        if st.startswith('//@fn-from '):
+            # //@fn-from <unit> <file> <Qual>::<name>   : contract text is copied from units/<unit>/unit.rs, where the
+            # function is verified against it; here the function is assumed (external_body) so that its callers are
+            # checked against the callee's contract, not its body.
+            parts = st.split()
+            other, rel2, qn2 = parts[1], parts[2], parts[3]
+            opath = os.path.join(os.path.dirname(os.path.dirname(os.path.abspath(template_path))), other, 'unit.rs')
+            if not os.path.exists(opath):
+                raise AnchorLost(f'fn-from: unit {other} not found')
+            olines = open(opath, encoding='utf-8').read().split('\n')
+            found = None
+            for oi, ol in enumerate(olines):
+                osp = ol.strip().split()
+                if len(osp) >= 3 and osp[0] == '//@fn' and osp[1] == rel2 and osp[2] == qn2:
+                    found = oi
+                    break
+            if found is None:
+                raise AnchorLost(f'fn-from: {qn2} has no contract in unit {other}')
+            cl = []
+            oj = found + 1
+            while olines[oj].strip() != '//@end':
+                cl.append(olines[oj])
+                oj += 1
+            indent0 = re.match(r'\s*', ln).group(0)
+            lines[i:i + 1] = [indent0 + f'//@fn {rel2} {qn2} external from={other}'] + cl + [indent0 + '//@end']
+            continue
         if st.startswith('//@fn '):
             parts = st.split()
             rel, qn = parts[1], parts[2]
@@ -483,7 +525,10 @@ def expand(template_path, repo):
             external = 'external' in opts
             retname = 'r'
             nth = None
+            from_unit = None
             for o in opts:
+                if o.startswith('from='):
+                    from_unit = o[5:]
                 if o.startswith('ret='):
                     retname = o[4:]
                 if o.startswith('nth='):
@@ -521,7 +566,7 @@ def expand(template_path, repo):
             pieces.append(indent + body)
             block = '\n'.join(pieces)
             out.append(block)
-            fns.append(dict(file=rel, qual=qual, name=name, qn=qn, external=external, src_line=sp['line'],
+            fns.append(dict(file=rel, qual=qual, name=name, qn=qn, external=external, from_unit=from_unit, src_line=sp['line'],
                             src_body_line=sp['body_line'],
                             out_sig=l_sig, out_contract=l_contract, out_body=l_body,
                             out_end=l_sig + block.count('\n'), contract=[c.strip() for c in contract if c.strip()],
